@@ -29,8 +29,9 @@ RangeItems ==
     I("[2..3]", "bad", <<>>), I("2..=3..=4", "bad", <<>>), I("2=3", "bad", <<>>), I("2...3", "bad", <<>>) }
 AccessItems == { I("r", "access", <<>>), I("w", "access", <<>>), I("rw", "access", <<>>),
                  I("x", "bad", <<>>), I("read", "bad", <<>>), I("rw rw", "bad", <<>>) }
-StrideItems == { I("stride = 2", "stride", <<>>), I("stride: 2", "stride", <<>>), I("stride = 4", "stride", <<>>),
-                 I("stride = 1", "stride", <<>>),          \* smaller than the two-bit ranges: semantically invalid there, in ANY order
+(* the value of a stride item rides in its `ranges` field *)
+StrideItems == { I("stride = 2", "stride", << <<2, 2>> >>), I("stride: 2", "stride", << <<2, 2>> >>), I("stride = 4", "stride", << <<4, 4>> >>),
+                 I("stride = 1", "stride", << <<1, 1>> >>),  \* smaller than the two-bit ranges: semantically invalid there, in ANY order
                  I("stride 2", "bad", <<>>), I("stride =", "bad", <<>>), I("stride = x", "bad", <<>>), I("stride", "bad", <<>>),
                  I("step = 2", "bad", <<>>) }
 
@@ -48,6 +49,11 @@ Canonical(items) ==
   \/ Len(items) = 2 /\ IsRangeCls(items[1].cls) /\ items[2].cls \in {"access", "stride"}
   \/ Len(items) = 3 /\ IsRangeCls(items[1].cls) /\ items[2].cls = "access" /\ items[3].cls = "stride"
 
+(* a trailing comma after the last item: conventional in Rust, not documented *)
+Trailing(g) == "trailing" \in DOMAIN g /\ g.trailing
+(* token-level spaces (ArgTokens.tla) do not enforce the rejection of malformed attributes: C09 quantifies over well-formed ones *)
+EnforceReject(g) == ~("enforce_reject" \in DOMAIN g) \/ g.enforce_reject
+
 (* g = [head, items, isarray] *)
 GrammarVerdict(g) ==
   IF g.items = <<>> \/ HasBad(g.items) \/ NRange(g.items) # 1 THEN "must_reject"
@@ -55,7 +61,7 @@ GrammarVerdict(g) ==
   ELSE IF ~HeadMatches(g.head, RangeItem(g.items)) THEN "must_reject"
   ELSE IF HasStride(g.items) /\ ~g.isarray THEN "must_reject"
   ELSE IF Cardinality({k \in 1..Len(g.items) : g.items[k].cls = "stride"}) > 1 THEN "unspecified"
-  ELSE IF Canonical(g.items) THEN "must_accept"
+  ELSE IF Canonical(g.items) /\ ~Trailing(g) THEN "must_accept"
   ELSE "unspecified"
 (* the MEANING of an attribute does not depend on the order of its items: whenever every item is well formed, there is
    exactly one range item matching the head, and access / stride occur at most once, the attribute -- if it is accepted
@@ -71,21 +77,19 @@ GRanges(g) == RangeItem(g.items).ranges
 GAccess(g) == LET acc == {k \in 1..Len(g.items) : g.items[k].cls = "access"} IN
               IF acc = {} THEN "none" ELSE g.items[CHOOSE k \in acc : TRUE].text
 GStride(g) == LET st == {k \in 1..Len(g.items) : g.items[k].cls = "stride"} IN
-              IF st = {} THEN <<>> ELSE IF g.items[CHOOSE k \in st : TRUE].text = "stride = 4" THEN <<4>>
-                                ELSE IF g.items[CHOOSE k \in st : TRUE].text = "stride = 1" THEN <<1>> ELSE <<2>>
-
+              IF st = {} THEN <<>> ELSE <<g.items[CHOOSE k \in st : TRUE].ranges[1][1]>>
 ---------------------------------------------------------------------------
 (* enumeration of the attribute space *)
 Level == IF "SPACE_LEVEL" \in DOMAIN IOEnv THEN atoi(IOEnv.SPACE_LEVEL) ELSE 1
 Seqs1 == {<<a>> : a \in RangeItems \cup AccessItems \cup StrideItems}
 Seqs2 == {<<a, b>> : a \in RangeItems, b \in AccessItems \cup StrideItems \cup (IF Level >= 2 THEN RangeItems ELSE {I("2..=3", "range", << <<2, 3>> >>)})}
-         \cup {<<b, a>> : a \in RangeItems, b \in {I("rw", "access", <<>>), I("stride = 2", "stride", <<>>)}}
-SeqsPerm == {<<c, a, b>> : a \in {r \in RangeItems : r.cls # "bad"}, b \in {I("rw", "access", <<>>), I("w", "access", <<>>)}, c \in {I("stride = 4", "stride", <<>>), I("stride: 2", "stride", <<>>), I("stride = 1", "stride", <<>>)}}
-            \cup {<<c, a>> : a \in {r \in RangeItems : r.cls # "bad"}, c \in {I("stride = 4", "stride", <<>>), I("stride = 1", "stride", <<>>)}}
-            \cup {<<b, c, a>> : a \in {r \in RangeItems : r.cls = "range"}, b \in {I("rw", "access", <<>>)}, c \in {I("stride = 4", "stride", <<>>), I("stride = 1", "stride", <<>>)}}
-            \cup {<<a, c, b>> : a \in {r \in RangeItems : r.cls = "range"}, b \in {I("rw", "access", <<>>)}, c \in {I("stride = 1", "stride", <<>>)}}
+         \cup {<<b, a>> : a \in RangeItems, b \in {I("rw", "access", <<>>), I("stride = 2", "stride", << <<2, 2>> >>)}}
+SeqsPerm == {<<c, a, b>> : a \in {r \in RangeItems : r.cls # "bad"}, b \in {I("rw", "access", <<>>), I("w", "access", <<>>)}, c \in {I("stride = 4", "stride", << <<4, 4>> >>), I("stride: 2", "stride", << <<2, 2>> >>), I("stride = 1", "stride", << <<1, 1>> >>)}}
+            \cup {<<c, a>> : a \in {r \in RangeItems : r.cls # "bad"}, c \in {I("stride = 4", "stride", << <<4, 4>> >>), I("stride = 1", "stride", << <<1, 1>> >>)}}
+            \cup {<<b, c, a>> : a \in {r \in RangeItems : r.cls = "range"}, b \in {I("rw", "access", <<>>)}, c \in {I("stride = 4", "stride", << <<4, 4>> >>), I("stride = 1", "stride", << <<1, 1>> >>)}}
+            \cup {<<a, c, b>> : a \in {r \in RangeItems : r.cls = "range"}, b \in {I("rw", "access", <<>>)}, c \in {I("stride = 1", "stride", << <<1, 1>> >>)}}
 Seqs3 == {<<a, b, c>> : a \in (IF Level >= 2 THEN RangeItems ELSE {r \in RangeItems : r.cls # "bad"}), b \in AccessItems, c \in StrideItems}
-         \cup {<<a, c, b>> : a \in {r \in RangeItems : r.cls # "bad"}, b \in {I("rw", "access", <<>>)}, c \in {I("stride = 2", "stride", <<>>)}}
+         \cup {<<a, c, b>> : a \in {r \in RangeItems : r.cls # "bad"}, b \in {I("rw", "access", <<>>)}, c \in {I("stride = 2", "stride", << <<2, 2>> >>)}}
          \cup {<<a, b, b2>> : a \in {r \in RangeItems : r.cls = "range"}, b \in {I("r", "access", <<>>)}, b2 \in {I("w", "access", <<>>), I("r", "access", <<>>)}}
 AllSeqs == {<<>>} \cup Seqs1 \cup Seqs2 \cup Seqs3 \cup SeqsPerm
 Space == {[head |-> h, items |-> s, isarray |-> arr] : h \in {"bit", "bits"}, s \in AllSeqs, arr \in BOOLEAN}
